@@ -637,7 +637,10 @@ void HistSim::checkAll(const Op& op, size_t ix, bool relaxedDoc, int relaxedIdx)
     obs.u(valueHash(ds.model));
     if (opt.inspect) {
       bool leaks = ds.leaky || (relaxedDoc && relaxedIdx == d);
-      auto rep = verif::Inspector::checkShape(*ds.doc, leaks ? "C05:shape-after-failure" : "C04:shape", leaks);
+      // after a failed allocation slots may be stranded, but the structure must stay sound; at a
+      // capacity limit the same holds and identifiers / counters must not have wrapped (C19)
+      const char* shapeCls = !leaks ? "C04:shape" : opt.mode == "limit" ? "C19:shape-at-limit" : "C05:shape-after-failure";
+      auto rep = verif::Inspector::checkShape(*ds.doc, shapeCls, leaks);
       if (!leaks) {
         if (rep.leaked)
           violate("C06:slot-leak", std::to_string(rep.leaked) +
